@@ -23,6 +23,7 @@ type Env struct {
 	nb      *int
 	noHeap  bool // inside a spec function body
 	specPkg string
+	reveal  map[string]bool // opaque predicates expanded in this evaluation
 }
 
 type specErr string
@@ -643,6 +644,20 @@ func (env *Env) call(x *SCall) Value {
 	if pd, ok := env.enc.db.Preds[x.Fn]; ok {
 		if len(pd.Params) != len(x.Args) {
 			env.fail("pred %s: arity mismatch", pd.Name)
+		}
+		if pd.Opaque && !env.reveal[pd.Name] {
+			// an uninterpreted atom over the (heap-independent) arguments
+			var args []Term
+			var sorts []string
+			for i, p := range pd.Params {
+				ts := env.specArg(p, env.eval(x.Args[i]))
+				args = append(args, ts...)
+				for _, l := range specParamLeaves(p.Type) {
+					sorts = append(sorts, l.Sort)
+				}
+			}
+			env.enc.declareFun("P_"+pd.Name, sorts, "Bool")
+			return boolVal(app(SBool, "P_"+pd.Name, args...))
 		}
 		vars := map[string]Value{}
 		for i, p := range pd.Params {
